@@ -4,7 +4,7 @@
 (*   (forest, cwd, path string, syscall, descriptor encoding, flag word,   *)
 (*    second path + descriptor for two-path calls)                         *)
 (* is indexed by integers and decoded here; the orchestrator only supplies *)
-(* numbers (sel.ndjson: [u, ra, rb] lines drawn from the seed):            *)
+(* numbers (sel.ndjson: [u, ra, rb, rc] lines drawn from the seed):        *)
 (*   W  walk family   index -> (forest, cwd, abs, trail, components);      *)
 (*                    ra/rb -> the remaining coordinates                   *)
 (*      the exhaustive block: EVERY string with at most 3 components       *)
@@ -12,6 +12,8 @@
 (*      forest), written in A3Parts slices by parallel TLC runs            *)
 (*   K  class family  every open-family call x access mode x SUBSET KFlags *)
 (*   A  argument family  every call x every descriptor encoding x 4 shapes *)
+(*   M  memory family  representative calls x every placement of the       *)
+(*      string relative to a page boundary x short/long string             *)
 (***************************************************************************)
 EXTENDS PathWalk, Json
 
@@ -46,7 +48,16 @@ ND == 5
 NSys == 26
 ASSUME NK = Len(Kinds) /\ ND = Len(DirPaths) /\ NSys = Len(Syscalls)
 NoD == [lo |-> "none", hi |-> "zero", dirp |-> <<>>]
-PS(abs, comps, trail) == [abs |-> abs, comps |-> comps, trail |-> trail, pre |-> "", pdir |-> <<>>]
+Static == [b |-> "static", gap |-> FALSE]
+PS(abs, comps, trail) == [abs |-> abs, comps |-> comps, trail |-> trail, pre |-> "", pdir |-> <<>>,
+                          pad |-> 0, mem |-> Static]
+
+\* placements of the string in the caller's memory and lengths (see PathWalk.tla)
+Mems == << Static >> \o [ k \in 1..12 |-> [b |-> <<"in", "end", "one", "mid", "last", "nul">>[((k - 1) % 6) + 1], gap |-> k > 6] ]
+NM   == 13
+Pads == <<0, 0, 700, 3000>>
+ASSUME NM = Len(Mems)
+Placed(ps, m, pad) == [ps EXCEPT !.mem = Mems[m], !.pad = pad]
 NoP == PS(FALSE, <<>>, FALSE)
 DK(k, d) == [lo |-> Kinds[k].lo, hi |-> Kinds[k].hi, dirp |-> IF Kinds[k].lo = "fd" THEN DirPaths[d] ELSE <<>>]
 
@@ -65,7 +76,7 @@ Mk(fam, f, cwd, sc, acc, fl, d1, p1, d2, p2) ==
    d2 |-> IF HasArg(sc, "d2") THEN d2 ELSE NoD, p2 |-> IF HasArg(sc, "p2") THEN p2 ELSE NoP]
 
 \* ---- W   (fam = "skip": the index does not denote a well-formed string; the driver drops it)
-WCase(i, ra, rb) ==
+WCase(i, ra, rb, rc) ==
   LET f     == (i % NF) + 1
       i1    == i \div NF
       cwd   == Cwds[(i1 % NC) + 1]
@@ -84,13 +95,16 @@ WCase(i, ra, rb) ==
       ps2c  == PS(((rb \div 400) % 2) = 1, CompsOf(x2), ((rb \div 800) % 2) = 1)
       ps2   == IF WellFormed(ps2c) THEN ps2c ELSE [ps2c EXCEPT !.abs = TRUE]
       d2    == DK(((rb \div 1600) % NK) + 1, ((rb \div 11200) % ND) + 1)
-      ps    == WithPre(ps0, (rb \div 56000) % 8, ((rb \div 11200) % ND) + 1)
-  IN Mk(IF WellFormed(ps0) THEN "W" ELSE "skip", f, cwd, sc, acc, fl, d1, ps, d2, ps2)
+      ps1   == WithPre(ps0, (rb \div 56000) % 8, ((rb \div 11200) % ND) + 1)
+      ps    == Placed(ps1, (rc % NM) + 1, Pads[((rc \div (NM * NM)) % 4) + 1])
+      ps2p  == Placed(ps2, ((rc \div NM) % NM) + 1, Pads[((rc \div (NM * NM * 4)) % 4) + 1])
+  IN Mk(IF WellFormed(ps0) THEN "W" ELSE "skip", f, cwd, sc, acc, fl, d1, ps, d2, ps2p)
 
 Ra(i) == (i * 7919 + (Seed % 1000) * 104729 + 12345) % 999983
 Rb(i) == (i * 48611 + (Seed % 1000) * 7 + 1) % 999979
+Rc(i) == (i * 31337 + (Seed % 1000) * 13 + 5) % 999961
 
-WSel  == [ j \in DOMAIN Sel |-> WCase(Sel[j][1] % N4, Sel[j][2], Sel[j][3]) ]
+WSel  == [ j \in DOMAIN Sel |-> WCase(Sel[j][1] % N4, Sel[j][2], Sel[j][3], Sel[j][4]) ]
 \* every string of at most 3 components: relative ones from every cwd, absolute ones once per forest
 \* (an absolute name does not depend on the cwd), in the index layout of WCase
 Idx(x, abs, tr, c, f) == (((x * 2 + abs) * 2 + tr) * NC + c) * NF + f
@@ -103,7 +117,7 @@ NAll3 == NRel3 + NAbs3
 A3Lo  == ((A3Part - 1) * NAll3) \div A3Parts + 1
 A3Hi  == (A3Part * NAll3) \div A3Parts
 WAll3 == IF A3Part > 0 THEN [ k \in 1..(A3Hi - A3Lo + 1) |->
-                               WCase(All3Index(A3Lo + k - 2), Ra(A3Lo + k - 2), Rb(A3Lo + k - 2)) ]
+                               WCase(All3Index(A3Lo + k - 2), Ra(A3Lo + k - 2), Rb(A3Lo + k - 2), Rc(A3Lo + k - 2)) ]
          ELSE <<>>
 
 \* ---- K: class of every open flag word
@@ -124,7 +138,15 @@ ACases ==
        DK(7, 1), WithPre(Shapes[s], x, 2), DK(1, 1), WithPre(Shapes[(s % 4) + 1], 11 - x, 1)) :
       f \in AForests, sc \in ToSet(Syscalls), x \in 4..7, s \in {1, 3, 4} }
 
-Cases == WAll3 \o (IF Rest THEN WSel \o SetToSeq(KCases) \o SetToSeq(ACases) ELSE <<>>)
+\* ---- M: where the string lies in the caller's memory
+MSys == {"open", "openat", "openat2", "stat", "statx", "readlinkat", "unlinkat", "symlinkat", "renameat",
+         "rename", "linkat", "execve"}
+MCases ==
+  { Mk("M", 1, r(<<"a">>), sc, 0, IF sc \in OpenFamily THEN {} ELSE AtChoices(sc)[1],
+       DK(1, 1), Placed(Shapes[s], m, pad), DK(2, 1), Placed(Shapes[5 - s], ((m + 4) % NM) + 1, 3000 - pad)) :
+      sc \in MSys, m \in 2..NM, s \in {2, 3}, pad \in {0, 3000} }
+
+Cases == WAll3 \o (IF Rest THEN WSel \o SetToSeq(KCases) \o SetToSeq(ACases) \o SetToSeq(MCases) ELSE <<>>)
 
 Forests == [ i \in 1..NF |-> [id |-> i,
                nodes |-> SetToSeq({ [p |-> p, t |-> Forest(i)[p].t, abs |-> Forest(i)[p].abs, tgt |-> Forest(i)[p].tgt] :
